@@ -6,6 +6,9 @@ from . import source as S
 
 def call(ex, st, fn, args, kw, node):
     name = fn.name
+    bc = ex.contracts.get("builtin:" + name)
+    if bc is not None:
+        yield from bc(ex, st, fn, args, kw); return
     from .symexec import Opaque
     if any(isinstance(a, Opaque) for a in args) and name in ("sum", "len", "str", "repr", "_compat.text_repr", "sorted", "list"):
         yield st, Opaque(); return
